@@ -184,6 +184,75 @@ fn exec_product(t: &mut Tape, st: &mut Stats) -> Result<(), String> {
     check_verdict(&spec, &mut Sched::canonical(), st)
 }
 
+/// Stage 'truncated': the statement's last sentence - a connection whose message boundaries were lost is never offered for
+/// reuse. The only way the library loses a boundary on well-formed input is known finding K1 (a 3xx head accepted from a
+/// strict prefix once its Location line is complete). Whenever a flow hands out a response for a strict prefix of a head,
+/// the verdict that follows must be must-close, whatever Connection field the truncated head carries.
+fn exec_truncated(t: &mut Tape, st: &mut Stats) -> Result<(), String> {
+    use ureq_proto::client::flow::{RecvBodyResult, RecvResponseResult};
+    let status = [301u16, 302, 303, 307, 308, 300][t.below(6)];
+    let conn = t.below(5); // 0 none, 1 keep-alive before Location, 2 keep-alive after, 3 upgrade before, 4 close before
+    let extra = t.below(3); // 0 nothing, 1 Set-Cookie after, 2 Content-Length: 0 after
+    let cut_sel = t.below(4);
+    st.evals(1);
+    let mut lines: Vec<String> = vec![format!("HTTP/1.1 {} Moved\r\n", status)];
+    match conn {
+        1 => lines.push("Connection: keep-alive\r\n".into()),
+        3 => lines.push("Connection: upgrade\r\n".into()),
+        4 => lines.push("Connection: close\r\n".into()),
+        _ => {}
+    }
+    lines.push("Location: /next\r\n".into());
+    let after_loc: usize = lines.iter().map(|l| l.len()).sum();
+    if conn == 2 {
+        lines.push("connection: keep-alive\r\n".into());
+    }
+    match extra {
+        1 => lines.push("Set-Cookie: a=b\r\n".into()),
+        2 => lines.push("Content-Length: 0\r\n".into()),
+        _ => {}
+    }
+    let head: String = lines.concat() + "\r\n";
+    let full = head.len();
+    // cut: right after the Location line, at the end of the last field line, one byte into a later line, one byte short
+    let cut = match cut_sel {
+        0 => after_loc,
+        1 => full - 2,
+        2 => (after_loc + 1).min(full - 1),
+        _ => full - 1,
+    };
+    st.describe(|| json!({"stage": "truncated", "head": head, "cut": cut}));
+    let mut f = crate::drive::recv::flow_recv(&Method::GET, false, &[])?;
+    let (n, resp) = f.try_response(&head.as_bytes()[..cut]).map_err(|e| format!("truncated head: {:?}", e))?;
+    if resp.is_none() {
+        st.class("truncated_not_accepted");
+        return Ok(());
+    }
+    st.class("truncated_accepted_k1");
+    let what = format!("3xx head accepted from its first {} of {} bytes ({} consumed): {:?}", cut, full, n, &head[..cut]);
+    let (mc, reason, mc2) = match f.proceed().ok_or("cannot proceed after an accepted response")? {
+        RecvResponseResult::Redirect(r) => {
+            let (a, b) = (r.must_close_connection(), r.close_reason());
+            let c = r.proceed();
+            (a, b, c.must_close_connection())
+        }
+        RecvResponseResult::Cleanup(c) => (c.must_close_connection(), c.close_reason(), c.must_close_connection()),
+        RecvResponseResult::RecvBody(b) => match b.proceed() {
+            Some(RecvBodyResult::Redirect(r)) => (r.must_close_connection(), r.close_reason(), r.must_close_connection()),
+            Some(RecvBodyResult::Cleanup(c)) => (c.must_close_connection(), c.close_reason(), c.must_close_connection()),
+            None => {
+                st.class("truncated_body_pending");
+                return Ok(());
+            }
+        },
+    };
+    if !mc || !mc2 || reason.is_none() {
+        return Err(format!("{}: message boundary lost, but the connection is offered for reuse (must_close = {} / {}, reason {:?})", what, mc, mc2, reason));
+    }
+    st.count_nontrivial(1);
+    Ok(())
+}
+
 fn exec_random(t: &mut Tape, st: &mut Stats) -> Result<(), String> {
     let spec = gen_exchange(t, true);
     st.describe(|| spec_json(&spec));
@@ -200,20 +269,31 @@ pub static DEF: PropDef = PropDef {
 methods x Expect outcome {none, 100 received, timeout, refused by a bare response, refused with fields, late 100} x response version x \
 status {200, 204, 304, 301 + Location, 404, 500, 101} x framing {Content-Length 5, Content-Length 0, chunked, none} x response Connection \
 {absent, close, keep-alive, [keep-alive, close], [close, keep-alive], upgrade} = 145152 cells (invalid method/version pairs and chunked \
-on HTTP/1.0 skipped and counted), each run to Redirect and/or Cleanup. random 'decorated': C01's exchange generator under generated \
-schedules. Oracle: must_close_connection() <=> disjunction of the five conditions evaluated on the cell; Redirect and the Cleanup state \
+on HTTP/1.0 skipped and counted), each run to Redirect and/or Cleanup. enumeration 'truncated': 3xx heads with a Connection field {none, keep-alive before / after Location, upgrade, close} \
+and a further field, cut after the Location line / before the empty line / inside a later line / one byte short (360 cells): \
+whenever the flow hands out a response for such a strict prefix (known finding K1) the verdict must be must-close. random \
+'decorated': C01's exchange generator under generated schedules. Oracle: must_close_connection() <=> disjunction of the five conditions evaluated on the cell; Redirect and the Cleanup state \
 after it agree; close_reason() is Some <=> must-close; its text, classified by keyword (1.0 / client / server / 100 / delimited), names a \
 condition that holds (unclassifiable text is counted, not failed); plus the complete ground-truth check of the exchange. non-trivial = \
 >= 2 conditions true, or exactly one on the redirect path; distinct by enumeration index.",
     assumptions: &["Connection values are whole lower-case tokens in 0..2 fields (DESIGN 5.3)"],
     exec: exec_product,
-    enums: &[EnumDef {
-        name: "product",
-        count: |_t: Tier| crate::infra::runner::product(&BASES),
-        tape: |_, idx| radix(idx, &BASES),
-        exhaustive: true,
-        exec: None,
-    }],
+    enums: &[
+        EnumDef {
+            name: "product",
+            count: |_t: Tier| crate::infra::runner::product(&BASES),
+            tape: |_, idx| radix(idx, &BASES),
+            exhaustive: true,
+            exec: None,
+        },
+        EnumDef {
+            name: "truncated",
+            count: |_t: Tier| 6 * 5 * 3 * 4,
+            tape: |_, idx| radix(idx, &[6, 5, 3, 4]),
+            exhaustive: true,
+            exec: Some(exec_truncated),
+        },
+    ],
     randoms: &[RandomDef {
         name: "decorated",
         cases: |t: Tier| t.pick(200_000, 4_000_000),
